@@ -23,6 +23,8 @@ RULE = ('datatype trees (depth<=2 quick, <=3 thorough; floats/scaled with unit i
         '(copy) copy() of constructor-built and of rebuilt trees + identity traversal + mutation of the copy + probes; '
         '(compat) a.compatible(b) for b = widened/narrowed variant of a, a = variant of b, independent pairs, a itself '
         '(thorough: all ordered pairs of a 60-type catalogue) + probes valid for a from both sides\' boundary catalogues; '
+        'also TupleOf SUBCLASSES: StatusType(..) / LimitsType(member) against the plain TupleOf they are exported as (JSON round '
+        'trip through get_datatype, copy(), the same tree built directly, wider members), the reverse direction, subclass pairs; '
         '(get) get_datatype of specification-side datainfo with unknown extra keys (must-ignore), dropped keys, wrong '
         'kinds, min>max, old [type, {..}] syntax, unknown types; non-trivial = distinct case whose tree is not a bare bool')
 ASSUMPTIONS = [
@@ -33,7 +35,9 @@ ASSUMPTIONS = [
     'compared only between a constructor-built type and its copy)',
     'get_datatype model domain: descriptions are JSON values; "command" and "limit" entries, strings offered as '
     'scaled scale/min/max, enum member tables that are not objects or hold strings/null as codes are outside the model',
-    'LimitsType / StatusType / CommandType (not SECoP value types) are not covered',
+    'LimitsType / StatusType are covered for compatible() only, as the plain tuple they are described as (a subclass tuple '
+    'is a tuple: the encoder erases the class); their copy()/rebuild and the order constraint of LimitsType.validate are not '
+    'modelled (plain TupleOf(m, m) -> LimitsType(m) is not generated); CommandType is not covered',
     'generalConfig.lazy_number_validation = False (default)',
 ]
 
@@ -404,6 +408,8 @@ def oracle(case, obs):
                     fail('compat-unsound', f'compatible() passed, {r!r} is valid for the first type, the second raises {rb[1]}')
                     break
         else:
+            # property text: "same kind with equal or wider limits" must pass; a status / limits type is of the kind
+            # tuple (its description says so), whichever class implements it: da, db are the described (plain) trees
             n = nested(da, db)
             if n is True:
                 fail('compat-incomplete', f'value sets are nested and the pairing is supported, compatible() raised '
@@ -539,6 +545,7 @@ def _limit_values(d):
 
 
 def _compat_probes(rng, a, b):
+    a, b = X.plain(a), X.plain(b)                          # subclass tuples: probes of the plain tree they describe
     ga = X.to_g(a)
     out = []
     for _ in range(4):
@@ -740,6 +747,9 @@ def gen_cases(seed, tier):
             b = X.rand_xt(rng, rng.randint(0, depth), special=False)
         else:
             b = a
+        cases.append({'kind': 'compat', 'a': a, 'b': b, 'probes': _compat_probes(rng, a, b)})
+    for _ in range({'quick': 160, 'thorough': 3000, 'search': 1500}[tier]):
+        a, b = X.rand_subclass_pair(rng)
         cases.append({'kind': 'compat', 'a': a, 'b': b, 'probes': _compat_probes(rng, a, b)})
     if tier == 'thorough':
         cat = catalogue()
